@@ -3,6 +3,7 @@ import BigDec.Driver.C02
 import BigDec.Driver.C03
 import BigDec.Driver.C04
 import BigDec.Driver.C16
+import BigDec.Driver.C17
 import BigDec.Driver.C05
 import BigDec.Driver.C06
 import BigDec.Driver.C07
@@ -23,6 +24,7 @@ def dispatch (prop op : String) (args : List String) (impl : String) : Verdict :
   | "C03" => Driver.C03.handle op args impl
   | "C04" => Driver.C04.handle op args impl
   | "C16" => Driver.C16.handle op args impl
+  | "C17" => Driver.C17.handle op args impl
   | "C05" => Driver.C05.handle op args impl
   | "C06" => Driver.C06.handle op args impl
   | "C07" => Driver.C07.handle op args impl
